@@ -24,6 +24,10 @@ mod join;
 #[doc(hidden)]
 pub mod map;
 mod queues;
+#[cfg(swimos_verif)]
+pub mod verif_hooks {
+    pub use super::queues::{SyncQueue, ToWrite, WriteQueues};
+}
 #[doc(hidden)]
 pub mod supply;
 #[cfg(test)]
